@@ -727,10 +727,10 @@ PROBES = {"D9": [("histories_sampled", _D9_PROBE)]}
 
 SUBS = [
     Sub("histories_sampled", check, strategy=_hist_strategy, quick=220, thorough=6000, shards=16, shrink_quick=False,
-        floors={"nt": 0.142, "refit_other_data": 0.06, "copy_after_fit": 0.079, "est:to": 0.05, "est:eg": 0.1, "est:gs": 0.088,
+        floors={"nt": 0.142, "refit_other_data": 0.06, "copy_after_fit": 0.075, "est:to": 0.05, "est:eg": 0.099, "est:gs": 0.088,
                 "est:cr": 0.05, "est:adv": 0.05}),
     Sub("reconfigured_refits", check, strategy=_reconf_strategy, quick=160, thorough=4000, shards=16, shrink_quick=False,
-        floors={"reconfig": 0.45, "est:to": 0.094, "refit_after_reconfig": 0.4}),
+        floors={"reconfig": 0.45, "est:to": 0.076, "refit_after_reconfig": 0.4}),
     Sub("histories_exhaustive", check, enumerate=_enumerate, shards=16, exhaustive=True),
     Sub("adversarial_refits", check, strategy=_adv_refit_hist, quick=48, thorough=800, shards=16, shrink_quick=False,
         floors={"adv_refit_other_category_set": 0.45}),
